@@ -15,6 +15,9 @@ Structural clauses decided (cardillo/urdf/system_from_urdf.py):
  R7 axis is honoured         every joint type whose URDF meaning depends on <axis> (revolute, continuous, prismatic, planar) reads
                              joint.axis, and both the joint frame handed to the constraint (A_IJ0) and the non-zero relative pose /
                              velocity of the child depend on it (forward taint inside the branch)
+ R8 basis-tag typing         (K15) in system_from_urdf the naming convention A_XY (maps Y- to X-components), X_r_.. / X_omega_.. (components in X) is a
+                             type system: every product A_XY @ Z_vec / A_XY @ A_ZW has Y == Z, sums and cross products combine vectors of one
+                             basis, and assignments to typed names receive that type (parent.A_IR is the parent's reference basis Rp)
  R5 body kwargs              RigidBody / Frame bodies are constructed with keys their constructors accept
 """
 from __future__ import annotations
@@ -117,6 +120,27 @@ def axis_used(ctx):
                         "the joint frame instead of about / along / perpendicular to the stated axis", f"{URDF}:{nonzero[0].lineno}")
 
 
+def basis_typing(ctx):
+    from ..basistags import Typer
+    rep = ctx.rep
+    mod = ctx.repo.module(URDF)
+    typer = Typer(owner_map={"parent": {"R": "Rp"}}, alias={"Rc": "R"})
+    n = 0
+    for q, fn in mod.defs().items():
+        if not isinstance(fn, ast.FunctionDef) or "." in q:
+            continue
+        C = f"{URDF}:{q}"
+        for node, kind, msg in typer.check(fn):
+            n += 1
+            if kind == "ok":
+                rep.ok("C28.R8", C, msg)
+            else:
+                rep.bad("C28.R8", C, node, f"ill-typed under the code base's basis naming convention: {msg}: a vector / frame is rotated with the wrong basis, so the link is "
+                        "placed (or moves) away from its forward-kinematics pose while all joint constraints can still be satisfied", f"{URDF}:{node.lineno}")
+    if n < 25:
+        raise AnalysisError(f"C28.R8: only {n} typed products found")
+
+
 def axis_invariance(ctx):
     from fractions import Fraction
     from ..degrees import Interp, Z, TOP, is_ground
@@ -171,6 +195,8 @@ def run(ctx):
     rep.rule("C28.R3", "class-level calls resolve", 2)
     rep.rule("C28.R4", "supported joint types have branches; classes imported", 6)
     rep.rule("C28.R5", "body constructor conformance", 2)
+    rep.rule("C28.R8", "basis-tag typing of the forward-kinematics products (K15)", 25)
+    basis_typing(ctx)
     rep.rule("C28.R7", "axis-bearing joint types build the joint frame and the child's relative motion from joint.axis (taint)", 6)
     axis_used(ctx)
     rep.rule("C28.R6", "relative pose and velocity of the child are invariant under scaling of the URDF axis (degree analysis)", 8)
@@ -355,6 +381,14 @@ MUTANTS += [
          expect="C28.R7"),
     dict(id="c28-r7-2", what="prismatic joint displaced along the joint frame's x-axis instead of the URDF axis", file=URDF,
          old="        J_r_JRc = displacement * e1\n", new="        J_r_JRc = displacement * np.array([1.0, 0.0, 0.0])\n", expect="C28.R7"),
+]
+MUTANTS += [
+    dict(id="c28-r8-seed", canary=True, what="[seeded by sub-agent] centre of mass rotated with the inertial basis A_IB instead of the link basis A_IR", file=URDF,
+         edits=[(URDF, "                child.r_OC = child.r_OR + child.A_IR @ R_r_RC", "                child.r_OC = child.r_OR + child.A_IB @ R_r_RC")], expect="C28.R8"),
+    dict(id="c28-r8-2", what="child angular velocity: parent's angular velocity not rotated into the joint frame", file=URDF,
+         old="            J_omega_IRc = A_RpJ.T @ parent.R_omega_IR + J_omega_JRc", new="            J_omega_IRc = parent.R_omega_IR + J_omega_JRc", expect="C28.R8"),
+    dict(id="c28-r8-3", what="child orientation composed in the wrong order", file=URDF,
+         old="            child.A_IR = parent.A_IR @ A_RpJ @ A_JRc", new="            child.A_IR = parent.A_IR @ A_JRc @ A_RpJ", expect="C28.R8"),
 ]
 NEUTRAL = [
     dict(id="c28-n1", canary=True, what="revolute joint: axis normalised in place by axis_angle_to_A, then used for the angular velocity", file=URDF,
